@@ -29,7 +29,7 @@ InitOf(i) ==
    pend |-> IF Definite THEN NoPend ELSE InitPend, pos |-> 0,
    size |-> <<2, 1>>, dur |-> 50, args |-> "a0", pad |-> NoPad,
    cached |-> c, cache |-> IF c THEN EmptyCache ELSE <<>>,
-   own |-> i.own, fin |-> 0, loops |-> l0]
+   own |-> i.own, fin |-> 0, loops |-> l0, term |-> <<TW, TH>>]
 
 ApplyOp(t, op) ==
   CASE op.name = "next" -> DoNext(t)
@@ -39,7 +39,8 @@ ApplyOp(t, op) ==
     [] op.name = "next_fails" -> DoNextFails(t, op.kind)
     [] op.name = "seek" -> DoSeek(t, op.off, op.whence)
     [] op.name = "set_frame_duration" -> DoSet(t, "dur", op.v, op.v > 0 \/ op.v = Dyn, "ValueError")
-    [] op.name = "set_padding" -> DoSet(t, "pad", op.v, TRUE, "")
+    [] op.name = "set_padding" -> DoSetPad(t, op.v)
+    [] op.name = "resize" -> DoResize(t, op.v)
     [] op.name = "set_render_args" ->
          DoSet(t, "args", op.v, op.v # "incompatible", "IncompatibleRenderArgsError")
     [] op.name = "set_render_size" -> DoSet(t, "size", op.v, TRUE, "")
